@@ -395,6 +395,16 @@ def run(c):
     bad = monitor(c, results, "mon")
     c.log("monitor: %d lines evaluated by TLC in %.1fs" % (c.evaluations, time.time() - t0))
     by_id = {sc["id"]: (sc, tr) for sc, tr in results}
+    # a watchdog expiry that the monitor does not count as a violation means that the driver waited for
+    # something the specification does not promise: the script was not judged as intended
+    unjudged = [sc for sc, tr in results if any(e["ev"] == "timeout" for e in tr)
+                and not any(cl == "RunReturns" for cl, _ in bad.get(sc["id"], []))]
+    c.extra["watchdog_expiries_not_counted_as_violation"] = len(unjudged)
+    if unjudged:
+        c.log("%d watchdog expiries were not violations according to the monitor, e.g. %s" % (len(unjudged), describe(unjudged[0])))
+        if len(unjudged) > max(2, len(results) // 200):
+            raise vlib.Inconclusive("%d scripts ended in a watchdog expiry that the monitor does not judge, e.g. %s"
+                                    % (len(unjudged), describe(unjudged[0])))
     nontrivial = 0
     for sc, tr in results:
         if sum(1 for e in tr if e["ev"] == "ext") >= 2:
